@@ -1579,6 +1579,8 @@ pub fn c10(ctx: &mut Ctx) -> String {
         }
         ctx.stat("production_sampler_frequency_tests");
     }
+    // one draw per chance infoset and pass, seen from the command line (Gambit files)
+    crate::cli::shared_coin(ctx);
     "the categorical sampler on the complete dyadic grid (weights in {0, 1/8, 1/4, 1/2, 3/4, 1}, length <= 4 (quick) / 5 (thorough), sum <= 2, u = j/64; exact interval oracle) and on random doubles, against the model; draw logs of the three methods (kind, infoset, pass, weights, index) against the model and against the discipline rules; observed production samplers against the declared weights".to_string()
 }
 
